@@ -22,5 +22,6 @@ var verifEntries = map[string]func(int){
 	"Verif_C15_VDefrag":    Verif_C15_VDefrag,
 	"Verif_C11_OverBudget": Verif_C11_OverBudget,
 	"Verif_C15_VReuse":     Verif_C15_VReuse,
+	"Verif_C12_Pairs":      Verif_C12_Pairs,
 	"Verif_C19_Fallback":   Verif_C19_Fallback,
 }
